@@ -309,6 +309,10 @@ func Epoch() {}
 // ForeignStores is the number of such stores so far (always 0 natively).
 func ForeignStores() int { return 0 }
 
+// AtomicOps is the number of sync/atomic operations executed so far on this
+// path (under the engine; 0 natively).
+func AtomicOps() int { return 0 }
+
 // ExpectPanic declares that a Go panic from here on is the expected outcome.
 func ExpectPanic() {
 	if cur != nil {
